@@ -9,7 +9,8 @@ Mirrors, as they are written:
 * `dic/lexicon_set.rs`     — `LexiconSet::{new, append, is_full, lookup, get_word_info_subset, update_dict_id}`
 * `dic/grammar.rs`         — `get_part_of_speech_id`, `register_pos`, `merge`;  `util/user_pos.rs: handle_user_pos`
 * `dic/dictionary.rs`      — `from_cfg_storage` (plugins register POS, then the user dictionaries are merged one by
-                             one), `merge_user_dictionary` (offset = current POS count, append, then grammar merge)
+                             one), `merge_user_dictionary` (offset = current POS count, append, then grammar merge;
+                             `MergeVariant`: without / with the test that the merged POS list stays within `u16` ids)
 * `dic/build/lexicon.rs`   — `preload_pos`, `pos_of`, `parse_record` (order of the POS registrations inside one row),
                              `parse_splits`/`parse_split`, `resolve_splits`, `validate_entries`, `write_pos_table`
 * `dic/build/resolve.rs`   — `RawDictResolver`, `BinDictResolver`, `ChainedResolver`
@@ -628,6 +629,52 @@ def load (sysPos : List Pos) (sysLex : Lexicon) (plugs : List (Bool × Pos))
     | .err e => .err e
     | .panic w => .panic w
     | .ok (g, _) => mergeAll ⟨g, set⟩ users
+
+/-! ### `merge_user_dictionary` with and without the size test (finding P2)
+
+Two versions of `JapaneseDictionary::merge_user_dictionary` are modelled; the harness names the one of the tree it is built
+against on every `stack` / `poslimit` line (`mv=any|limit`).
+
+* `unbounded` (the pinned tree, kept verbatim: `mergeUser` above): the user dictionary's POS table is appended whatever the
+  size of the merged list.  `LexiconSet::get_word_info_subset` narrows the rebased id with `as u16` (`rebasePos`: `asU16`),
+  so an entry at position ≥ 65 536 of the merged list cannot be named by any word;
+* `limit` (repair of finding P2): before anything else is done with the user dictionary (before `update_cost`, `append`,
+  `merge`) the load fails with `InvalidPartOfSpeech` if `pos_list.len() + user_pos_list.len() > u16::MAX as usize + 1`. -/
+inductive MergeVariant where
+  | unbounded
+  | limit
+deriving Repr, DecidableEq
+
+/-- `u16::MAX as usize + 1`: the number of entries a `u16` POS id can address (ids `0 ..= 65535`) -/
+def U16_IDS : Nat := 65536
+
+/-- `merge_user_dictionary` of either tree (POS / lexicon part) -/
+def mergeUserV (v : MergeVariant) (d : Dict) (ownPos : List Pos) (lex : Lexicon) : Outcome Dict :=
+  match v with
+  | .unbounded => mergeUser d ownPos lex
+  | .limit =>
+    if d.posList.length + ownPos.length > U16_IDS then .err .invalidPos
+    else mergeUser d ownPos lex
+
+def mergeAllV (v : MergeVariant) : Dict → List (List Pos × Lexicon) → Outcome Dict
+  | d, [] => .ok d
+  | d, (own, lex) :: rest =>
+    match mergeUserV v d own lex with
+    | .ok d' => mergeAllV v d' rest
+    | .err e => .err e
+    | .panic w => .panic w
+
+/-- `from_cfg_storage` of either tree (`loadV .unbounded` is `load`: `Layers.loadV_unbounded`) -/
+def loadV (v : MergeVariant) (sysPos : List Pos) (sysLex : Lexicon) (plugs : List (Bool × Pos))
+    (users : List (List Pos × Lexicon)) : Outcome Dict :=
+  match LexSet.new sysLex sysPos.length with
+  | .err e => .err e
+  | .panic w => .panic w
+  | .ok set =>
+    match loadPlugins sysPos plugs with
+    | .err e => .err e
+    | .panic w => .panic w
+    | .ok (g, _) => mergeAllV v ⟨g, set⟩ users
 
 /-- `Morpheme::part_of_speech_id` / `dictionary_id` of a path node: OOV nodes carry the POS id in the word part -/
 def morphInfo (d : Dict) (raw : Nat) : Outcome (Int × Nat) :=
